@@ -21,7 +21,9 @@ import (
 	"github.com/relex/gotils/promexporter/promreg"
 	"github.com/relex/slog-agent/base"
 	"github.com/relex/slog-agent/defs"
+	"github.com/relex/slog-agent/input/sysloginput"
 	"github.com/relex/slog-agent/input/syslogparser"
+	"github.com/relex/slog-agent/util"
 )
 
 // ---- the oracle's own tables (RFC 5424 numerical codes -> the names slog-agent documents) ----
@@ -44,6 +46,7 @@ type c09Env struct {
 	spare   base.LogFieldLocator
 	parsers map[string]*c09Parser
 	created int
+	compos  map[string]*c09Parser // sysloginput.Config.NewParser: the parser followed by (harmless) extractions
 }
 
 var c09env *c09Env
@@ -55,7 +58,7 @@ func c09Setup() *c09Env {
 	logger.SetLogLevel(logger.FatalLevel) // the parser warns on every malformed / over-long record
 	// a schema in a different order than the parser sets the fields, with one field the parser does not know
 	schema := base.MustNewLogSchema([]string{"log", "level", "spare", "facility", "time", "host", "app", "pid", "source", "extradata"})
-	e := &c09Env{schema: schema, alloc: base.NewLogAllocator(schema, 1), parsers: map[string]*c09Parser{}}
+	e := &c09Env{schema: schema, alloc: base.NewLogAllocator(schema, 1), parsers: map[string]*c09Parser{}, compos: map[string]*c09Parser{}}
 	for _, n := range c09Fields {
 		e.locs = append(e.locs, schema.MustCreateFieldLocator(n))
 	}
@@ -90,6 +93,33 @@ func (e *c09Env) newParser(mapping []string) (*c09Parser, error) {
 		return nil, err
 	}
 	return &c09Parser{parser: parser, counter: counter, mf: mf}, nil
+}
+
+// compositeFor: the parser as the agent builds it (sysloginput.Config.NewParser = syslogParser + extraction
+// transforms run right after it); the one extraction empties the field "spare", which the parser never sets
+func (e *c09Env) compositeFor(mapping []string) (*c09Parser, error) {
+	key := fmt.Sprintf("%q", mapping)
+	if p, ok := e.compos[key]; ok {
+		return p, nil
+	}
+	cfg := &sysloginput.Config{}
+	if err := util.UnmarshalYamlString("type: syslog\naddress: localhost:0\nlevelMapping: [x]\nextractions:\n  - type: delFields\n    keys: [spare]\n", cfg); err != nil {
+		return nil, err
+	}
+	cfg.LevelMapping = mapping
+	e.created++
+	mf := promreg.NewMetricFactory(fmt.Sprintf("c09c%d_", e.created), nil, nil)
+	counter := base.NewLogInputCounter(mf)
+	parser, err := cfg.NewParser(logger.Root(), e.alloc, e.schema, counter)
+	if err != nil {
+		return nil, err
+	}
+	if len(e.compos) > 2000 {
+		e.compos = map[string]*c09Parser{}
+	}
+	p := &c09Parser{parser: parser, counter: counter, mf: mf}
+	e.compos[key] = p
+	return p, nil
 }
 
 // counters after UpdateMetrics: passed, passedBytes, dropped, droppedBytes, overflow, overflowBytes
@@ -225,7 +255,23 @@ func c09Run(c *Case) (out string, fails []Fail) {
 	before := p.read()
 	prev := before
 	o, f := c09One(env, p, before, &prev, input, levels, compact, "")
-	return o, append(fails, f...)
+	fails = append(fails, f...)
+	// the same message through the parser as the agent configures it (composite parser of sysloginput)
+	if !compact {
+		cp, err := env.compositeFor(levels)
+		if err != nil {
+			fails = append(fails, Fail{"c09:composite", "sysloginput.Config.NewParser fails: " + err.Error()})
+			return o, fails
+		}
+		cbefore := cp.read()
+		cprev := cbefore
+		o2, f2 := c09One(env, cp, cbefore, &cprev, input, levels, compact, "through sysloginput.Config.NewParser, ")
+		if o2 != o {
+			fails = append(fails, Fail{"c09:composite-differs", fmt.Sprintf("sysloginput's composite parser gives %.200s, the syslog parser alone %.200s for input %s", o2, o, c09Short(input))})
+		}
+		fails = append(fails, f2...)
+	}
+	return o, fails
 }
 
 // c09One parses one message with parser p. base0: counter reading the printed counters are relative
